@@ -133,7 +133,6 @@ static void case_prime(ByteSource& in, CaseInfo& ci) {
     if (isp) REQUIRE(g != 0, "mpz_probable_prime_p(prob=%d): returned 0 for a prime", prob); else { REQUIRE(g != 2, "mpz_probable_prime_p: returned 2 for a composite"); if (prob >= 50) REQUIRE(g == 0, "mpz_probable_prime_p(prob=%d): composite reported as prime", prob); } }
   else if (f == 2) { int g = mpz_likely_prime_p(n, rs.s, 0); if (isp) REQUIRE(g != 0, "mpz_likely_prime_p: returned 0 for a prime"); else REQUIRE(g != 2, "mpz_likely_prime_p: returned 2 for a composite"); }
   else { // domain (DESIGN.md S2): odd n >= 11, as its callers establish
-    if (!N.is_odd() || N < Int(11)) { ci.label("miller_rabin:outside_domain_skipped"); return; }
     int reps = (int)in.range(1, 30); int g = mpz_miller_rabin(n, reps, rs.s); if (isp) REQUIRE(g != 0, "mpz_miller_rabin(reps=%d): returned 0 for a prime", reps); else REQUIRE(g != 2, "mpz_miller_rabin: returned 2 for a composite"); }
   REQUIRE(int_from_mpz(n) == N, "%s: operand modified", names[f]);
 }
@@ -185,7 +184,7 @@ static void sweep_item(uint64_t i, CaseInfo& ci) {
   int g = mpz_probab_prime_p(n, 25); REQUIRE(p ? g != 0 : g == 0, "mpz_probab_prime_p(%llu, 25) = %d, %s", (unsigned long long)i, g, p ? "prime" : "composite");
   g = mpz_probable_prime_p(n, rs.s, 50, 0); REQUIRE(p ? g != 0 : g == 0, "mpz_probable_prime_p(%llu, prob 50) = %d, %s", (unsigned long long)i, g, p ? "prime" : "composite");
   g = mpz_likely_prime_p(n, rs.s, 0); REQUIRE(!(p && g == 0) && !(!p && g == 2), "mpz_likely_prime_p(%llu) = %d, %s", (unsigned long long)i, g, p ? "prime" : "composite");
-  if ((i & 1) && i >= 11) { g = mpz_miller_rabin(n, 10, rs.s); REQUIRE(!(p && g == 0) && !(!p && g == 2), "mpz_miller_rabin(%llu) = %d", (unsigned long long)i, g); }
+  { g = mpz_miller_rabin(n, 10, rs.s); REQUIRE(!(p && g == 0) && !(!p && g == 2), "mpz_miller_rabin(%llu) = %d", (unsigned long long)i, g); }
   uint64_t nx = i + 1; while (!ref::is_prime_u64(nx)) nx++; mpz_nextprime(r, n); REQUIRE(int_from_mpz(r) == Int::from_u64(nx), "mpz_nextprime(%llu): expected %llu", (unsigned long long)i, (unsigned long long)nx);
   mpz_next_prime_candidate(r, n, rs.s); { Int R = int_from_mpz(r); REQUIRE(R > Int::from_u64(i) && R <= Int::from_u64(nx), "mpz_next_prime_candidate(%llu): result skips the prime %llu or is not greater than the argument", (unsigned long long)i, (unsigned long long)nx); }
   if (i <= 1500) { mpz_fac_ui(r, i); REQUIRE(int_from_mpz(r) == ref_mfac(i, 1), "mpz_fac_ui(%llu)", (unsigned long long)i); mpz_2fac_ui(r, i); REQUIRE(int_from_mpz(r) == ref_mfac(i, 2), "mpz_2fac_ui(%llu)", (unsigned long long)i); mpz_primorial_ui(r, i); REQUIRE(int_from_mpz(r) == ref_primorial(i), "mpz_primorial_ui(%llu)", (unsigned long long)i);
@@ -215,5 +214,5 @@ namespace eng {
 PropDef g_prop = {"C16",
   "Cases: a rare class (~1 in 1300) of mpz_primorial_ui / mpz_fac_ui / mpz_bin_uiui with arguments 10^5..4*10^6 (thorough: 3*10^7; several blocks of the prime sieve) compared modulo four 61-bit primes with an own sieve / modular factorials; mpz_fac_ui/2fac_ui/mfac_uiui/primorial_ui (n dense to 120, around table ends and FAC thresholds, log-uniform to the scale cap; m in {1..12, n-1, n, n+1, > n}); mpz_bin_uiui on (n,k) shapes for each algorithm region (small, k near 0 or n, central, huge n with small k, k>n) and mpz_bin_ui with negative and multi-limb n; mpz_fib_ui/fib2_ui/lucnum_ui/lucnum2_ui (dense to 200, around 93/186 table limits, log-uniform beyond, n=0); mpz_remove (f>=2 only: 2, small, 2^j, multi-limb; multiplicity 0..thousands; negative op; aliasing); primality: all n < 70000, n near 2^16/2^31/2^32/2^53/2^63/2^64, random 64-bit, Chernick Carmichael numbers, strong pseudoprimes (psi values), squares and products of close primes, large primes of special form (Mersenne, 2^k+-c) and composites built from them; nextprime / next_prime_candidate incl. starts of large prime gaps and arguments next to 2^64. Oracle: refint by definition (product trees, multiplicative binomial with verified exact division, fast-doubling Fibonacci); deterministic Miller-Rabin for n < 2^81, construction knowledge beyond; checks: never 0 for a prime, never 2 for a composite, 0 for composites at reps>=25 / prob>=50, result > n with no prime strictly between. mpz_miller_rabin only on odd n >= 11. Non-trivial: result >= 2 limbs / n > 3. Distinct = hash of all decoded choices.",
   check, setup_primes, {"huge_sieve_argument", "carmichael", "strong_pseudoprime", "semiprime_close", "large_prime_special_form", "large_composite_special_form", "near_2^k", "bin:k_gt_n", "bin_ui:negative_n", "bin_ui:multi_limb_n", "mfac:m_gt_n", "fac:ge_dsc_threshold", "fib:n0", "large_gap_start", "remove:negative_op"}, nullptr, sweep_count, sweep_item,
-  "every n in [0,2^16): mpz_probab_prime_p (25 reps), mpz_probable_prime_p (prob 50), mpz_likely_prime_p, mpz_miller_rabin (odd n>=11), mpz_nextprime (exact next prime), mpz_next_prime_candidate; every n <= 1500: fac, 2fac, mfac m=3..5, primorial, fib, fib2, lucnum, lucnum2; every (n,k) in [0,89]x[0,94]: bin_uiui, bin_ui; plus mpz_nextprime started just below every composite p*(m(p-1)+1) (p prime in [10007, 3*10^6], m = 2..7, second factor prime) whose successor + 2 is prime; plus mpz_primorial_ui at every prime square p^2 and p^2+1 with 786432 < p^2 < 2.6*10^6 (limit of the blocked sieve exactly on a prime square), modulo four 61-bit primes"};
+  "every n in [0,2^16): mpz_probab_prime_p (25 reps), mpz_probable_prime_p (prob 50), mpz_likely_prime_p, mpz_miller_rabin, mpz_nextprime (exact next prime), mpz_next_prime_candidate; every n <= 1500: fac, 2fac, mfac m=3..5, primorial, fib, fib2, lucnum, lucnum2; every (n,k) in [0,89]x[0,94]: bin_uiui, bin_ui; plus mpz_nextprime started just below every composite p*(m(p-1)+1) (p prime in [10007, 3*10^6], m = 2..7, second factor prime) whose successor + 2 is prime; plus mpz_primorial_ui at every prime square p^2 and p^2+1 with 786432 < p^2 < 2.6*10^6 (limit of the blocked sieve exactly on a prime square), modulo four 61-bit primes"};
 }
